@@ -1,4 +1,5 @@
 import SigHook.Props.C10
+import SigHook.Lemmas.Scan
 import SigHook.Model.Skel
 /-!
 # C09 — Signal iterators never lose a signal or a wake-up
@@ -572,3 +573,23 @@ theorem C09_scan_after_drain_skeleton :
     skelOf backendFile "poll_pending" = ["is_closed", "has_signals", "pending"] := by decide
 
 end SigHook.Iter
+
+/-! ## Queueing exfiltrators: the scan hands out everything that is queued (`Lemmas/Scan.lean`) -/
+namespace SigHook.Scan
+
+/-- **C09.scan_hands_out_everything** — with `WithRawSiginfo` / `WithOrigin` several records of one
+signal can be queued when `pending()` has just drained the self-pipe (their wake-up bytes are gone):
+draining the iterator yields exactly the records queued from its position on, each once, slot by
+slot, oldest first. -/
+theorem C09_scan_hands_out_everything (fuel : Nat) (s : St) (hf : (queued s).length < fuel) :
+    (drain true fuel s).1 = queued s := scan_hands_out_everything fuel s hf
+
+/-- the loop shape of the source is the one the theorem is about (regenerated on every run) -/
+theorem C09_scan_shape_current : staysOnHit = true := scan_shape_current
+
+/-- with the other shape (position advanced on a hit too) records are left behind -/
+theorem C09_scan_advancing_on_hit_strands :
+    (drain false 10 { done := [], rest := [[], [7, 8], []] }).1 = [7] ∧
+    (drain true 10 { done := [], rest := [[], [7, 8], []] }).1 = [7, 8] := scan_advancing_on_hit_strands
+
+end SigHook.Scan
